@@ -56,7 +56,7 @@ _reg('C02', [gates.rule_c02_r1, gates.rule_c02_r2, gates.rule_c02_r3, gates.rule
      "value, so strictness is inherited by every embedding context; plus the dispatch analysis (bool / str-subclass kinds). "
      "Not decided: coercions performed inside user-supplied constructors.", exhaustive=False)
 
-_reg('C09', [mutation.rule_c09_r1, mutation.rule_c09_r2],
+_reg('C09', [mutation.rule_c09_r1, mutation.rule_c09_r2, gates.rule_c09_r3],
      "Decides C09 for library code by a flow-sensitive freshness / alias analysis over both conversion passes, every into_data, the "
      "generated __init__, the unchecked constructors, copy/replace and the module-level entry points: no value reachable from a data "
      "parameter is the receiver of a mutating method, the target of an item / attribute store, del or augmented assignment (copies, "
